@@ -53,7 +53,7 @@ def SpineEnds (hp : Heap) (b : Nat) : Prop := ∃ hs : List Val, collectList hp 
 /-- one feature of a general structure: the sofa reference, a primitive, or a reference (to a structure or to a
     collection, shared or inlined) -/
 def JFeatOk (K : Consts) (ts : TypeSystem) (c : Cas) (ci : Nat) (hp : Heap) (isAnn : Bool) (o : Obj) (f : Feature) : Prop :=
-  f.reserved = false ∧ f.name ≠ "xmiID" ∧ f.name ≠ "type" ∧ f.name ≠ "self" ∧ f.name ≠ ID ∧
+  ResOk f ∧ f.name ≠ "xmiID" ∧ f.name ≠ "type" ∧ f.name ≠ "self" ∧ f.name ≠ ID ∧
   ∃ v : Val, alistGet? o.slots f.name = some v ∧
     ( -- the sofa reference: a view of this CAS (a structure that is not an annotation may have none)
       (f.name = "sofa" ∧ ((∃ vn, v = .sofa ci vn ∧ (Cas.getViewRec c vn).isSome = true) ∨ (v = .none ∧ isAnn = false)))
